@@ -127,6 +127,13 @@ theorem C05a_obs (es : List Ev) (s : St) (hr : model.run model.init es = some s)
   have : monC05a.run monC05a.init (es.filterMap model.obs) = some ms := h
   simp [ObsMonitor.accepts, this]
 
+/-- **C05, uniqueness at quiescence, observable form** (`C05b_obs`): at every quiescence line the list of executing
+instances with a live context has at most one element — for every run of the model. -/
+theorem C05b_obs (es : List Ev) (s : St) (hr : model.run model.init es = some s) :
+    monC05b.accepts (es.filterMap model.obs) = true := by
+  have := c05b_run model.init s es good_init cur_init {} linkA_init hr
+  simp [ObsMonitor.accepts, show monC05b.init = () from rfl, this]
+
 /-- an instance that has exited has a cancelled context -/
 theorem exited_cancelled (es : List Ev) (s : St) (hr : model.run model.init es = some s)
     (n : Nat) (x : Inst) (hx : s.insts[n]? = some x) (hcl : x.st = .closed) : x.cancelled = true :=
